@@ -1105,11 +1105,95 @@ fn wrap_case(i: u64, l: &mut Local) {
     }
 }
 
+// ------------------------------------------------------------------------------------------------
+// (d) no history: what a request reports does not depend on the requests built before it
+// ------------------------------------------------------------------------------------------------
+
+/// URLs that are prefixes / extensions / near misses of each other (host boundary, port, userinfo,
+/// trailing dot, public-suffix edge, IDN), used both as request URL and as source URL.
+const SEQ_URLS: [&str; 22] = [
+    "https://example.com/",
+    "https://example.com",
+    "https://example.com/page?x=1",
+    "https://example.com.evil.org/",
+    "https://example.com./",
+    "https://example.com:8080/",
+    "https://example.com@other.net/",
+    "https://example.co/",
+    "https://example.co.uk/",
+    "https://sub.example.com/",
+    "https://sub.example.com.evil.org/x",
+    "http://example.com/",
+    "wss://example.com/",
+    "https://b\u{fc}cher.de/",
+    "https://b\u{fc}cher.de.evil.org/",
+    "https://xn--bcher-kva.de/",
+    "https://1.2.3.4/",
+    "https://1.2.3.40/",
+    "https://[::1]/",
+    "https://[::1]:8080/",
+    "",
+    "about:blank",
+];
+
+fn seq_fields(r: &Request) -> String {
+    format!("{:?}|{}|{}|{}|{}|{}|{}|{:?}|{:?}", r.request_type, r.is_http, r.is_https, r.is_supported, r.is_third_party, r.url, r.hostname, r.source_hostname_hashes, r.get_tokens())
+}
+
+/// expected[i][j]: the request (SEQ_URLS[i] as URL, SEQ_URLS[j] as source) built as the very first
+/// request of a fresh thread.
+fn seq_expected() -> Vec<Vec<Option<String>>> {
+    let n = SEQ_URLS.len();
+    (0..n)
+        .map(|i| {
+            (0..n)
+                .map(|j| std::thread::spawn(move || catch(|| Request::new(SEQ_URLS[i], SEQ_URLS[j], "script").ok().map(|r| seq_fields(&r))).ok().flatten()).join().ok().flatten())
+                .collect()
+        })
+        .collect()
+}
+
+/// Two requests one after the other on one (fresh) thread: the second must equal the request built
+/// first on a fresh thread.
+fn seq_case(idx: u64, exp: &[Vec<Option<String>>], l: &mut Local) {
+    let n = SEQ_URLS.len() as u64;
+    let (u1, s1, u2, s2) = ((idx % n) as usize, (idx / n % n) as usize, (idx / n / n % n) as usize, (idx / n / n / n) as usize);
+    l.evaluations += 1;
+    l.transitions += 2;
+    let got = std::thread::spawn(move || {
+        catch(|| {
+            let _ = Request::new(SEQ_URLS[u1], SEQ_URLS[s1], "script");
+            Request::new(SEQ_URLS[u2], SEQ_URLS[s2], "script").ok().map(|r| seq_fields(&r))
+        })
+    })
+    .join()
+    .unwrap_or(Err("thread".into()));
+    l.compared += 1;
+    match got {
+        Ok(g) => {
+            if g.is_some() {
+                l.nontrivial += 1;
+            }
+            l.hist(if g.is_some() { "seq:second-ok" } else { "seq:second-rejected" });
+            if g != exp[u2][s2] {
+                l.mismatch(Mismatch {
+                    sig: "c12.history.second-request-differs-from-a-first-request".into(),
+                    what: format!("after Request::new({:?}, {:?}), Request::new({:?}, {:?}) reports {:?}; as the first request of a thread it reports {:?}", SEQ_URLS[u1], SEQ_URLS[s1], SEQ_URLS[u2], SEQ_URLS[s2], g, exp[u2][s2]),
+                    case: json!({"kind": "seq", "i": idx}),
+                    size: idx,
+                });
+            }
+        }
+        Err(loc) => l.mismatch(Mismatch { sig: format!("c12.history.panic@{}", loc), what: "panic".into(), case: json!({"kind": "seq", "i": idx}), size: idx }),
+    }
+}
+
 fn replay(case: &Value, l: &mut Local) {
     let g = |k: &str| case.get(k).and_then(|v| v.as_str()).unwrap_or("").to_string();
     match case["kind"].as_str().unwrap_or("") {
         "total" => total_case(&g("s"), l),
         "wrap" => wrap_case(case["i"].as_u64().unwrap_or(0), l),
+        "seq" => seq_case(case["i"].as_u64().unwrap_or(0), &seq_expected(), l),
         _ => {
             let (scheme, slashes, userinfo, host, port, path) = (g("scheme"), g("slashes"), g("userinfo"), g("host"), g("port"), g("path"));
             let p = Parts { scheme: &scheme, slashes: &slashes, userinfo: &userinfo, host: &host, port: &port, path: &path };
@@ -1236,9 +1320,20 @@ fn check(ctx: &Ctx) -> i32 {
     ctx.bound("wrap_urls", json!(WRAP_URLS));
     ctx.par_range("wrapped", nw, 64, |i, l| wrap_case(i, l));
 
+    // thorough: every (url1, source1, url2, source2); quick: url1 fixed to the first entry
+    let exp = seq_expected();
+    let ns = SEQ_URLS.len() as u64;
+    ctx.bound("sequence_urls", json!(SEQ_URLS));
+    let total_seq = if thorough { ns * ns * ns * ns } else { ns * ns * ns };
+    ctx.par_range("sequences", total_seq, 64, |i, l| {
+        // quick: index digits are (source1, url2, source2) with url1 = 0
+        let idx = if thorough { i } else { (i % ns) * ns + (i / ns % ns) * ns * ns + (i / ns / ns) * ns * ns * ns };
+        seq_case(idx, &exp, l)
+    });
+
     ctx.finish(
         "model_checking",
-        "(a) every string of length <= n over 18 symbols behind 6 prefixes through parse_url and Request::new as url / source / both: no panic, internal consistency; (b) scheme x slashes x userinfo x 48 hosts x port x path, each against every initiator (every host of the list, absent, 7 host-less spellings) and every type: hostname vs url crate / idna, party vs eTLD+1 from the public-suffix data, scheme flags, websocket type, source hashes, preparsed == new on fields and on a 10-rule engine, idempotence; (c) 6 URLs wrapped in every (two leading, one trailing) combination of 12 C0-control-or-space characters, as request URL and as source URL x 2 types: every public field equals that of the unwrapped URL, and 5 leading characters outside that class (DEL, NEL, NBSP, LS, ideographic space) are not stripped. Non-trivial = party verdict compared with an initiator that has a host (structured), or a parseable string checked first-party to itself (totality). states = requests built, transitions = constructor calls + engine queries, traces_validated = oracle comparisons",
+        "(a) every string of length <= n over 18 symbols behind 6 prefixes through parse_url and Request::new as url / source / both: no panic, internal consistency; (b) scheme x slashes x userinfo x 48 hosts x port x path, each against every initiator (every host of the list, absent, 7 host-less spellings) and every type: hostname vs url crate / idna, party vs eTLD+1 from the public-suffix data, scheme flags, websocket type, source hashes, preparsed == new on fields and on a 10-rule engine, idempotence; (c) 6 URLs wrapped in every (two leading, one trailing) combination of 12 C0-control-or-space characters, as request URL and as source URL x 2 types: every public field equals that of the unwrapped URL, and 5 leading characters outside that class (DEL, NEL, NBSP, LS, ideographic space) are not stripped; (d) every pair of consecutive requests over 22 URLs that are prefixes / extensions / near misses of each other (as URL and as source): the second request equals the one a fresh thread builds first. Non-trivial = party verdict compared with an initiator that has a host (structured), or a parseable string checked first-party to itself (totality). states = requests built, transitions = constructor calls + engine queries, traces_validated = oracle comparisons",
         &[
             "the url crate (WHATWG) is the oracle for host extraction where it leaves the host text alone; idna::domain_to_ascii for non-ASCII hosts",
             "public-suffix data of the psl crate is shared with the subject; the eTLD+1 computation on top of it is independent (parse_dns_name + label arithmetic)",
